@@ -69,6 +69,10 @@ class Check:
     def run(self, group, jobs, nproc=None, bounds=None, job_timeout=None):
         """jobs: list of (short harness name with package, kwargs)"""
         t = time.time()
+        only = os.environ.get('VERIF_DEV_GROUPS')     # development aid only: run a subset of the job groups (never set by ./check or MANIFEST)
+        if only and group not in only.split(','):
+            self.extra.setdefault('groups_skipped_by_VERIF_DEV_GROUPS', []).append(group)
+            return [], []
         full = [(MOD + '/' + f, kw) for f, kw in jobs]
         rs = runner.run_jobs(self.ssa, full, nproc, job_timeout)
         counts, viol, inc = runner.summarize(rs)
